@@ -470,3 +470,71 @@ def rule_globalstate(ctx, prop: str) -> RuleResult:
             )
     res.floor = 12
     return res
+
+
+def rule_argmut(ctx, prop: str) -> RuleResult:
+    """Argument processors of the scheduling API (`ArgumentProcessor` subclasses in
+    API_scheduling.py) receive the caller's own objects (cursors, lists of cursors,
+    dictionaries): none of their `__call__` / `_cursor_call` methods may update the
+    argument in place — element store / delete, mutating method, augmented assignment."""
+    ix = ctx.ix
+    res = RuleResult("ARGMUT")
+    AS_ = "src/exo/API_scheduling.py"
+    m = ix.module(AS_)
+    base = m.cls("ArgumentProcessor")
+    n_meth = 0
+    for c in ix.all_classes():
+        if c.file != AS_ or not any(k is base for k in ix.mro(c)):
+            continue
+        for mname in ("__call__", "_cursor_call"):
+            f = c.methods.get(mname)
+            if f is None:
+                continue
+            ps = [p for p in f.params() if p != "self"]
+            if not ps:
+                continue
+            arg = ps[0]
+            n_meth += 1
+            res.instances += 1
+            res.analysed.append(f"{AS_}:{f.qualname}")
+            # aliases of the argument (plain rebinding `x = arg`); a rebinding of `arg` itself to a
+            # fresh object ends the obligation for later statements of that name only if unconditional,
+            # which the syntactic check below does not need: it looks at stores THROUGH the name
+            bad = None
+            rebound_fresh_at = None
+            for n in f.body_nodes():
+                if isinstance(n, ast.Assign) and len(n.targets) == 1 and isinstance(n.targets[0], ast.Name) and n.targets[0].id == arg and not (isinstance(n.value, ast.Name)):
+                    if rebound_fresh_at is None or n.lineno < rebound_fresh_at:
+                        # `arg = [ ... ]` / `arg = p.forward(arg)`: later stores go to the new object
+                        rebound_fresh_at = n.lineno if isinstance(parent(n), ast.FunctionDef) else rebound_fresh_at
+            for n in f.body_nodes():
+                if rebound_fresh_at is not None and getattr(n, "lineno", 0) > rebound_fresh_at:
+                    continue
+                tgt = None
+                if isinstance(n, (ast.Assign, ast.AugAssign, ast.Delete)):
+                    tgts = n.targets if isinstance(n, (ast.Assign, ast.Delete)) else [n.target]
+                    for t in tgts:
+                        if isinstance(t, (ast.Subscript, ast.Attribute)) and isinstance(t.value, ast.Name) and t.value.id == arg:
+                            tgt = t
+                        if isinstance(n, ast.AugAssign) and isinstance(t, ast.Name) and t.id == arg:
+                            tgt = t
+                if isinstance(n, ast.Call) and isinstance(n.func, ast.Attribute) and n.func.attr in MUTATORS | {"update", "setdefault", "add", "discard"} and isinstance(n.func.value, ast.Name) and n.func.value.id == arg:
+                    tgt = n
+                if tgt is not None:
+                    bad = (n, tgt)
+                    break
+            ok = bad is None
+            res.ob(ok)
+            if not ok:
+                res.nontrivial += 1
+                n, tgt = bad
+                res.add(
+                    Finding("ARGMUT", AS_, n.lineno, f.qualname, ast.unparse(tgt)[:40],
+                            f"{f.qualname} updates the caller's argument `{arg}` in place (`{ast.unparse(n)[:60]}`): after commute_expr(p2, cs) the caller's own list `cs` holds "
+                            f"different (forwarded) cursors than before the call")
+                )
+    res.sample(f"{n_meth} argument-processor methods examined for in-place updates of the argument")
+    if n_meth < 20:
+        raise AnalysisError(f"ARGMUT: only {n_meth} argument-processor methods found in API_scheduling.py")
+    res.floor = 20
+    return res
